@@ -4,5 +4,6 @@
 #![allow(dead_code, unused_variables, clippy::all)]
 
 pub mod c10;
+pub mod c11;
 pub mod c19;
 pub mod probe;
